@@ -186,11 +186,17 @@ func (c *c15) silence(idx int) {
 		_, p, hung := a.dp.Deliver(msg(state), id, true, 3*time.Second)
 		return p && !hung
 	}
-	if !step(1) {
-		e.Extra["silence-setup"] = "first message not accepted"
-		return
+	// either Down -> Init -> Up (peer reports Down, then Init) or Down -> Up on ONE Init packet of a peer
+	// that is already in Init
+	single := r.Bool()
+	rep["single_init_packet"] = single
+	if !single {
+		if !step(1) {
+			e.Extra["silence-setup"] = "first message not accepted"
+			return
+		}
+		vs.Release()
 	}
-	vs.Release()
 	if !step(2) { // parks only after the first message has been applied: the session is in Init
 		e.Extra["silence-setup"] = "second message not accepted"
 		return
@@ -248,7 +254,7 @@ func (c *c15) silence(idx int) {
 		}
 		time.Sleep(200 * time.Microsecond)
 	}
-	e.Case(fmt.Sprintf("silence:%d:%d:%d:%d:%d", idx, id, local, rm, rx.Milliseconds()), "silence/"+outcome, false)
+	e.Case(fmt.Sprintf("silence:%d:%d:%d:%d:%d:%v", idx, id, local, rm, rx.Milliseconds(), single), fmt.Sprintf("silence/single=%v/%s", single, outcome), false)
 	if !sawUp {
 		e.Extra["silence-setup"] = "session did not come up"
 		return
